@@ -24,6 +24,13 @@ def run(ctx):
         jobs.append(j)
     for i in range(12 if ctx.thorough else 4):
         jobs.append(e2ejobs.job(rng, strategy=['ddmin', 'hybrid'][i % 2], jobs=1, size='small' if i % 2 else 'medium'))
+    # tasks of a ddmin round that were planned for nodes which an earlier acceptance of the same round has removed: they no longer
+    # apply, and what they leave (a declaration for a variable nobody uses) must not be tested, let alone adopted
+    nested = ('(set-logic ALL)\n(declare-const a Int)\n(declare-const b Int)\n(declare-const c Int)\n'
+              '(assert (> (+ (* a b) (- c 1)) 0))\n(assert (< (* (+ a 1) (- b c)) 5))\n(check-sat)\n')
+    for k in range(4 if ctx.thorough else 2):
+        jobs.append(dict(text=nested, opts=['--strategy', ['ddmin', 'hybrid'][k % 2], '-j', str(1 + k // 2), '--disable-all', '--introduce-fresh-variables'],
+                         cmd=[e2e.TOKPRED, 'all', '>', '<'], env={}))
     runs = e2e.run_many(jobs)
     for j, r in zip(jobs, runs):
         P = e2e.analyse(r)
@@ -49,6 +56,9 @@ def run(ctx):
     built = [(j, b) for j, b in built if b is not None]
     good = [(j, b) for j, b in built if 'error' not in b]
     for j, b in built:
+        if b.get('fresh_names'):
+            ctx.count('histories not replayed: one candidate modulo fresh-variable names got two verdicts (F18; hashN commands look at the names)')
+            continue
         if 'error' in b:
             ctx.disagree('scheduler history (reconstruction)', input=j['text'][:600], options=j['opts'], detail=b['error'])
     res = model.batch([(80, b['arg']) for _, b in good])
